@@ -1,4 +1,5 @@
 -- root of the library: the twenty property files (they import the lemmas and models they use)
+-- and the kernel-checked witnesses of the repaired defects
 import AlatorVerif.Props.C01
 import AlatorVerif.Props.C02
 import AlatorVerif.Props.C03
@@ -19,3 +20,4 @@ import AlatorVerif.Props.C17
 import AlatorVerif.Props.C18
 import AlatorVerif.Props.C19
 import AlatorVerif.Props.C20
+import AlatorVerif.Findings
